@@ -211,7 +211,12 @@ class Soap11(XmlDocument):
                         "header properly set.")
 
             content_type = cgi.parse_header(content_type)
-            ctx.in_string = collapse_swa(ctx, content_type, self.ns_soap_env)
+            try:
+                ctx.in_string = collapse_swa(ctx, content_type,
+                                                               self.ns_soap_env)
+            except XMLSyntaxError as e:
+                # the envelope of a multipart request is parsed in there
+                raise Fault('Client.XMLSyntaxError', str(e))
 
         ctx.in_document = _parse_xml_string(ctx.in_string,
                                             XMLParser(**self.parser_kwargs),
